@@ -487,7 +487,7 @@ def run_schedule(cfg, schedule, finish=True):
                 drift.append({"at": len(steps), "cmd": list(cmd), "enabled": en})
                 break
             steps.append({"cmd": list(cmd), "post": s.apply(cmd)})
-        if finish and not drift:
+        if finish:      # also after a divergence: the run is still completed and judged
             steps += s.finish()
         summ = s.summary()
     finally:
